@@ -346,6 +346,28 @@ MathCross(cls, cfg) ==
      ELSE IF orphan \/ nvars \cap (vars \cup consts) # {} THEN "skip"       \* not decided by the documentation
      ELSE "ok"
 
+(* ====================================================================== SquareMatrices (docstring "special cases") *)
+SquareExpect(c) ==   \* [symmetry, traceless, determinant ("none" | "zero" | "one"), complex, dimension]
+  LET cplx == c.complex \/ c.symmetry \in {"hermitian", "antihermitian"}
+      odd == c.dimension % 2 = 1
+  IN
+  IF c.determinant = "zero" /\ (c.traceless \/ (c.symmetry = "antisymmetric" /\ (cplx \/ ~odd))) THEN "reject"
+  ELSE IF c.determinant = "one" /\ c.dimension = 2 /\ c.traceless /\
+          ((c.symmetry \in {"diagonal", "symmetric"} /\ ~cplx) \/ c.symmetry = "hermitian") THEN "reject"
+  ELSE IF c.determinant = "one" /\ odd /\ c.symmetry \in {"antisymmetric", "antihermitian"} THEN "reject"
+  ELSE "accept"
+
+\* the same rule on a kind configuration of SquareMatrices (int_two = 2, int_pos = 7)
+SquareOfCfg(cfg) ==
+  LET sym == Get(cfg, "symmetry") IN
+  [symmetry |-> CASE sym = "enum_diagonal" -> "diagonal" [] sym = "enum_symmetric" -> "symmetric"
+                  [] sym = "enum_antisymmetric" -> "antisymmetric" [] sym = "enum_hermitian" -> "hermitian"
+                  [] sym = "enum_antihermitian" -> "antihermitian" [] OTHER -> "none",
+   traceless |-> Get(cfg, "traceless") = "bool_true",
+   determinant |-> CASE Get(cfg, "determinant") = "int_zero" -> "zero" [] Get(cfg, "determinant") = "int_one" -> "one" [] OTHER -> "none",
+   complex |-> Get(cfg, "complex") = "bool_true",
+   dimension |-> IF Get(cfg, "dimension") = "int_pos" THEN 7 ELSE 2]
+
 (* SingleListGrader: a nested SingleListGrader must use another delimiter (grader_single uses ';' = str_char);
    ListGrader: unordered lists only with a single subgrader; the answers must fit the subgrader(s);
    SpecifyDomain: min_length needs exactly one shape *)
@@ -361,6 +383,7 @@ OtherCross(cls, cfg) ==
          ELSE "ok"
     [] cls = "SpecifyDomain" ->
          IF Get(cfg, "min_length") \in IntsPos /\ Get(cfg, "input_shapes") # "list_num1" THEN "bad" ELSE "ok"
+    [] cls = "SquareMatrices" -> IF SquareExpect(SquareOfCfg(cfg)) = "reject" THEN "bad" ELSE "ok"
     [] OTHER -> "ok"
 
 Cross(cls, cfg) ==
@@ -480,15 +503,16 @@ LGExpect(c) ==
    chain: delimiters from the outermost grader inwards; all must differ *)
 NestedExpect(chain) == IF \A i, j \in 1..Len(chain) : i # j => chain[i] # chain[j] THEN "accept" ELSE "reject"
 
-(* ====================================================================== SquareMatrices (docstring "special cases") *)
-SquareExpect(c) ==   \* [symmetry, traceless, determinant ("none" | "zero" | "one"), complex, dimension]
-  LET cplx == c.complex \/ c.symmetry \in {"hermitian", "antihermitian"}
-      odd == c.dimension % 2 = 1
-  IN
-  IF c.determinant = "zero" /\ (c.traceless \/ (c.symmetry = "antisymmetric" /\ (cplx \/ ~odd))) THEN "reject"
-  ELSE IF c.determinant = "one" /\ c.dimension = 2 /\ c.traceless /\
-          ((c.symmetry \in {"diagonal", "symmetric"} /\ ~cplx) \/ c.symmetry = "hermitian") THEN "reject"
-  ELSE IF c.determinant = "one" /\ odd /\ c.symmetry \in {"antisymmetric", "antihermitian"} THEN "reject"
+(* ====================================================================== IntervalGrader answers
+   case: [form ("string" | "list"), open, close (bracket symbols; "two" = a two-character string), nbounds (number of
+   expressions between the brackets), curly (TRUE: opening_brackets='[({', closing_brackets='])}' instead of the defaults)]
+   Documented: a string such as '[1, 2)' or a list of four entries (opening bracket, lower, upper, closing bracket);
+   brackets must be among the configured opening / closing characters. *)
+IntervalExpect(c) ==
+  LET opens == {"lsq", "lpar"} \cup (IF c.curly THEN {"lcub"} ELSE {})
+      closes == {"rsq", "rpar"} \cup (IF c.curly THEN {"rcub"} ELSE {}) IN
+  IF c.nbounds # 2 THEN "reject"
+  ELSE IF c.open \notin opens \/ c.close \notin closes THEN "reject"
   ELSE "accept"
 
 (* ====================================================================== laws about the tables (checked by TLC) *)
